@@ -374,3 +374,40 @@ pub fn row_obs_same(a: &[Row], x: i32, b: &[Row], y: i32) -> bool {
     while j < b.len() { ok &= !((b[j].r == y) & !cov_a) | row_shows_defaults(&b[j]); j += 1; }
     ok
 }
+
+// ---------------------------------------------------------------------------------------------
+// a Locale value built by hand (all fields are public): the number symbols are parameters, the rest is `en`
+
+use crate::locale::{Currency, CurrencyFormats, DateFormats, Dates, DecimalFormats, Locale, NumbersProperties, NumbersSymbols};
+
+fn strs(v: &[&str]) -> Vec<String> { let mut out = Vec::new(); let mut i = 0; while i < v.len() { out.push(v[i].to_string()); i += 1; } out }
+fn date_formats(short: &str) -> DateFormats {
+    DateFormats { full: "EEEE, MMMM d, y".to_string(), long: "MMMM d, y".to_string(), medium: "MMM d, y".to_string(), short: short.to_string() }
+}
+pub fn locale_with(decimal: &str, group: &str) -> Locale {
+    Locale {
+        dates: Dates {
+            day_names: strs(&["Sunday", "Monday", "Tuesday", "Wednesday", "Thursday", "Friday", "Saturday"]),
+            day_names_short: strs(&["Sun", "Mon", "Tue", "Wed", "Thu", "Fri", "Sat"]),
+            months: strs(&["January", "February", "March", "April", "May", "June", "July", "August", "September", "October", "November", "December"]),
+            months_short: strs(&["Jan", "Feb", "Mar", "Apr", "May", "Jun", "Jul", "Aug", "Sep", "Oct", "Nov", "Dec"]),
+            months_letter: strs(&["J", "F", "M", "A", "M", "J", "J", "A", "S", "O", "N", "D"]),
+            date_formats: date_formats("M/d/yy"),
+            time_formats: date_formats("h:mm a"),
+            date_time_formats: date_formats("{1}, {0}"),
+        },
+        numbers: NumbersProperties {
+            symbols: NumbersSymbols {
+                decimal: decimal.to_string(), group: group.to_string(), list: ";".to_string(), percent_sign: "%".to_string(),
+                plus_sign: "+".to_string(), minus_sign: "-".to_string(), approximately_sign: "~".to_string(), exponential: "E".to_string(),
+                superscripting_exponent: "x".to_string(), per_mille: "%%".to_string(), infinity: "inf".to_string(), nan: "NaN".to_string(),
+                time_separator: ":".to_string(),
+            },
+            decimal_formats: DecimalFormats { standard: "#,##0.###".to_string() },
+            currency_formats: CurrencyFormats { standard: "$#,##0.00".to_string(), standard_alpha_next_to_number: None,
+                standard_no_currency: "#,##0.00".to_string(), accounting: "$#,##0.00;($#,##0.00)".to_string(),
+                accounting_alpha_next_to_number: None, accounting_no_currency: "#,##0.00;(#,##0.00)".to_string() },
+        },
+        currency: Currency { iso: "USD".to_string(), symbol: "$".to_string() },
+    }
+}
